@@ -405,7 +405,10 @@ func run(r *vk.Runner) {
 		base, want, err, _ := exec(nil, nil)
 		base2, want2, _, _ := exec(nil, nil)
 		if err != nil {
-			panic(fmt.Sprintf("bundle %s does not compile: %v", bc.c.ID, err))
+			if bc.c.Family == "bundles" {
+				panic(fmt.Sprintf("bundle %s does not compile: %v", bc.c.ID, err))
+			}
+			continue // C07's business
 		}
 		if fmt.Sprint(base) != fmt.Sprint(base2) || diff(want, want2) != "" {
 			panic(fmt.Sprintf("harness: default execution of %s is not reproducible (%d vs %d choice points)", bc.c.ID, len(base), len(base2)))
